@@ -4052,8 +4052,8 @@ class SFTPClient:
 
                 try:
                     await dstfs.setstat(dstpath, attrs,
-                                        follow_symlinks=follow_symlinks or
-                                        filetype != FILEXFER_TYPE_SYMLINK)
+                                        follow_symlinks=filetype !=
+                                        FILEXFER_TYPE_SYMLINK)
 
                     self.logger.info('    Preserved attrs: %s', attrs)
                 except SFTPOpUnsupported:
